@@ -59,6 +59,12 @@ def calc_id(statepoint):
 # of registration. _If_ we need more control over this, that process can be
 # exposed more thoroughly and registration can be made explicit rather than
 # implicit, but for now the existing behavior works fine.
+def _flush_buffered_documents():
+    """Write out all document changes held by the buffered mode, if it is active."""
+    if BufferedJSONAttrDict.backend_is_buffered():
+        BufferedJSONAttrDict._flush_buffer(force=True)
+
+
 class _StatePointDict(JSONAttrDict):
     """A JSON-backed dictionary for storing job state points.
 
@@ -135,6 +141,10 @@ class _StatePointDict(JSONAttrDict):
         old_id = job._id
         if old_id == new_id:
             return
+
+        # Document changes that are still held in the buffer (signac.buffered)
+        # belong to a file in the directory that is about to be renamed.
+        _flush_buffered_documents()
 
         tmp_statepoint_file = self.filename + "~"
         should_init = False
@@ -890,6 +900,8 @@ class Job:
             statepoint = self.statepoint()
             dst = project.open_job(statepoint)
             _mkdir_p(project.workspace)
+            # Buffered document changes must not be left behind.
+            _flush_buffered_documents()
             try:
                 os.replace(self.path, dst.path)
             except OSError as error:
